@@ -118,7 +118,7 @@ func (c *FnCtx) noopCall(st *State, sig *types.Signature) interface{} {
 func (c *FnCtx) havocCall(fr *frame, st *State, sig *types.Signature, name string) interface{} {
 	var ks []string
 	for k := range c.regSort {
-		if !c.prof.isTracked(k) {
+		if !c.prof.isTracked(k) && !strings.HasPrefix(k, "L_") {
 			ks = append(ks, k)
 		}
 	}
@@ -192,8 +192,17 @@ func (c *FnCtx) applyContract(fr *frame, st *State, sig *types.Signature, con *C
 	}
 	// modifies
 	if con.ModAll {
+		keep := map[string]bool{}
+		for _, pn := range con.Preserves {
+			for _, l := range c.modLocs(env, pn) {
+				keep[l.Region] = true
+			}
+		}
 		var ks []string
 		for k := range c.regSort {
+			if keep[k] || strings.HasPrefix(k, "L_") {
+				continue
+			}
 			if !c.prof.isTracked(k) || c.prof.DefaultHavoc == false {
 				ks = append(ks, k)
 			}
